@@ -8,6 +8,9 @@ ENV = "GOFLAGS=-mod=mod GOPROXY=off GOSUMDB=off GOTOOLCHAIN=local"
 TECH = "deterministic simulation with fault injection: real go-smtp code inside a testing/synctest bubble over a simulated transport, listener, clock, backend and SASL; seeded search over schedules and faults with tape-level minimisation and exact replay"
 
 CHECKS = {
+ "C02": dict(level="exploration", ref="7/C02",
+   text="Seeded search plus the systematic product {SMTP, LMTP plain, LMTP per-recipient} x backend {reads all, k, nothing} x {accept, SMTPError, plain error} x size limit {none, below, at, above}: a DATA message stuffed with bait command lines and end-marker look-alikes, followed by pipelined marker commands. Oracles: no bait address ever reaches the backend, exactly the expected replies arrive with each marker's own outcome, the marker MAIL reaches the backend, the message the backend saw is the reference unstuffing (or a prefix when it read less). A fault stratum stalls the client inside the message past ReadTimeout.",
+   note="Trusts the reference unstuffer and the strict reply splitter; acceptance of the message is not judged here."),
  "C01": dict(level="exploration", ref="7/C01",
    text="Seeded search plus a systematic sweep of all 5461 bodies over the byte classes {'.',CR,LF,other} up to length 6, each run under a drawn transport segmentation, server short-read plan and backend read-size plan; the octets and terminal error the real dataReader hands the backend are compared with an RFC 5321 reference unstuffer. Sampling, not proof: evidence of byte-exactness over the explored streams x schedules.",
    note="Trusts: the reference unstuffer (cross-checked against a reference stuffer), Go's testing/synctest fake clock, go1.26.8 building go-smtp the same way go1.23.5 does."),
